@@ -315,32 +315,23 @@ func runRoundScenario(seed uint64, size int, t *Trace) error {
 			fs[i].ss.mu.Unlock()
 			_ = i
 		}
-		// dial order: poll the connection counters during the round
+		// dial order: every scripted server logs its accepts itself. The client dials one server at a time and
+		// an attempt cannot finish before its server has accepted, so the accept order is the dial order.
+		logMu.Lock()
 		acceptLog = acceptLog[:0]
+		logMu.Unlock()
+		for i := range fs {
+			i := i
+			fs[i].ss.mu.Lock()
+			fs[i].ss.onAccept = func() {
+				logMu.Lock()
+				acceptLog = append(acceptLog, i)
+				logMu.Unlock()
+			}
+			fs[i].ss.mu.Unlock()
+		}
 		stop := make(chan struct{})
 		var wg sync.WaitGroup
-		wg.Add(1)
-		go func() {
-			defer wg.Done()
-			last := make([]int, nsrv)
-			for {
-				for i := range fs {
-					fs[i].ss.mu.Lock()
-					n := fs[i].ss.conns
-					fs[i].ss.mu.Unlock()
-					for ; last[i] < n; last[i]++ {
-						logMu.Lock()
-						acceptLog = append(acceptLog, i)
-						logMu.Unlock()
-					}
-				}
-				select {
-				case <-stop:
-					return
-				case <-time.After(2 * time.Millisecond):
-				}
-			}
-		}()
 		sink.take()
 		t0 := time.Now().Unix()
 		// fault: the server map cannot be written during this round (a directory sits at its path). The client
